@@ -49,6 +49,7 @@ func declMenu(f int) []decl {
 		{"extend-t2-x-r2", &ref.TypeDef{Name: "t2", Extend: true, Rels: []ref.Relation{rel("x"), rel("r2")}}, nil},
 		{"extend-t3-missing", &ref.TypeDef{Name: "t3", Extend: true, Rels: []ref.Relation{rel("y")}}, nil},
 		{"extend-t1-empty", &ref.TypeDef{Name: "t1", Extend: true}, nil},
+		{"extend-t1-shared", &ref.TypeDef{Name: "t1", Extend: true, Rels: []ref.Relation{rel("s")}}, nil},
 		{"cond-c1", nil, cond("c1")},
 		{"cond-c2", nil, cond("c2")},
 		{"type-user", &ref.TypeDef{Name: "user"}, nil},
